@@ -104,6 +104,11 @@ fn main() {
         rec.wall_cap_s = c;
     }
     match mode.as_str() {
+        "f-digest" => {
+            // pcmc f-digest C01 <scheme> <universe> [--seed N]
+            let u: usize = pos.get(1).and_then(|x| x.parse().ok()).unwrap_or(0);
+            checks::c01::print_flow_digest(seed, pos.get(0).map(|s| s.as_str()).unwrap_or(""), u);
+        }
         "c18-digest" => {
             checks::c18::print_digests(seed, rec.only.as_deref());
         }
